@@ -253,10 +253,35 @@ func workerBinary() string {
 	return dst
 }
 
+var binCopies = map[string]string{}
+
+// arenaCopyOf copies another worker binary (scheduler, race or map-order build) into the master arena:
+// the directory it was built in need not be reachable by an unprivileged worker (e.g. a checkout below /root).
+func arenaCopyOf(path string) string {
+	binMu.Lock()
+	defer binMu.Unlock()
+	if c, ok := binCopies[path]; ok {
+		return c
+	}
+	b, err := os.ReadFile(path)
+	if err != nil {
+		Fatalf("read worker binary %s: %v", path, err)
+	}
+	dst := filepath.Join(MasterArena(), fmt.Sprintf("vcheck-worker-%d-%s", len(binCopies), filepath.Base(path)))
+	if err := os.WriteFile(dst, b, 0755); err != nil {
+		Fatalf("copy worker binary: %v", err)
+	}
+	os.Chmod(dst, 0755)
+	binCopies[path] = dst
+	return dst
+}
+
 func (p *Pool) spawn() *worker {
 	bin := p.Binary
 	if bin == "" {
 		bin = workerBinary()
+	} else if p.UID != 0 {
+		bin = arenaCopyOf(bin)
 	}
 	var cmd *exec.Cmd
 	if p.MemKB > 0 {
